@@ -102,7 +102,7 @@ impl Case {
     }
 }
 
-const REAL_FAULTS: [&str; 5] = ["missing-directory", "path-is-directory", "parent-is-file", "name-too-long", "dev-full"];
+const REAL_FAULTS: [&str; 9] = ["missing-directory", "path-is-directory", "parent-is-file", "name-too-long", "dev-full", "path-dot", "path-dotdot", "path-trailing-dotdot", "path-empty"];
 /// total SVG lengths produced on purpose (index = case.k)
 const EXACT_LENGTHS: [usize; 12] = [4096, 8191, 8192, 8193, 16384, 32768, 65535, 65536, 65537, 131072, 196608, 262144];
 /// destination states that are not faults: a longer file, a shorter file, a symbolic link to a longer file
@@ -208,6 +208,17 @@ pub fn observe(ctx: &Ctx, st: &mut Stats, c: &Case, idx: usize) {
         }
         "name-too-long" => dir.join(format!("{}.{ext}", "n".repeat(300))),
         "dev-full" => PathBuf::from("/dev/full"),
+        // paths without a file-name component (all of them name a directory, or nothing): an error, not a panic
+        "path-dot" => dir.join("."),
+        "path-dotdot" => {
+            let _ = std::fs::create_dir_all(dir.join("sub"));
+            dir.join("sub").join("..")
+        }
+        "path-trailing-dotdot" => {
+            let _ = std::fs::create_dir_all(dir.join("x"));
+            dir.join("x/..")
+        }
+        "path-empty" => PathBuf::from(""),
         "existing-longer" | "existing-longer-short-writes" => {
             // longer than any rendering of this workload (V40 SVG with two layers is about 1.2 MB)
             let p = dir.join(format!("out.{ext}"));
@@ -437,11 +448,11 @@ pub fn run(ctx: &Ctx) -> Report {
     st.sets.remove("unreached");
     let mut rep = Report::new(
         st,
-        "cases = {SVG, PNG} x versions {1,7,40} (thorough: all 40) x option sets x fault classes: none; destination already exists (6 MiB longer file, 5-byte shorter file, symbolic link to a longer file, longer file + short writes): Ok must leave exactly the rendering, no stale tail; SVG documents padded (through the image string) to exactly 4096, 8191, 8192, 8193, 16384, 32768, 65535, 65536, 65537, 131072, 196608, 262144 bytes, also under short writes; the same process has just written another rendering to another path (identical / same symbol with one size-deciding option changed / bigger symbol / other colour); real faults: missing directory (ENOENT), path is a directory (EISDIR), parent is a regular file (ENOTDIR), over-long name (ENAMETOOLONG), /dev/full (ENOSPC at write time); injected by an LD_PRELOAD shim scoped to the case's scratch directory: create fails with EACCES/EROFS/EMFILE, first write fails with ENOSPC/EIO/EDQUOT, k-th write of a chunked stream fails (k in 2,3,5,9; 1024-byte chunks; 7-byte chunks), every write short (7 / 4096 bytes), EINTR on every other write (with and without short writes); each case runs to_file in a child process; the shim logs every interception and every fault actually DELIVERED; oracle: Ok(()) => the file's bytes equal the in-memory rendering computed in the same child; a delivered hard fault => Err(_) converted through ConvertError::from, normal exit, no panic; only benign perturbations => Ok with full content; a configured fault that was never reached is counted separately and is not a pass for the error half; distinct key = case; every case non-trivial",
+        "cases = {SVG, PNG} x versions {1,7,40} (thorough: all 40) x option sets x fault classes: none; destination already exists (6 MiB longer file, 5-byte shorter file, symbolic link to a longer file, longer file + short writes): Ok must leave exactly the rendering, no stale tail; SVG documents padded (through the image string) to exactly 4096, 8191, 8192, 8193, 16384, 32768, 65535, 65536, 65537, 131072, 196608, 262144 bytes, also under short writes; the same process has just written another rendering to another path (identical / same symbol with one size-deciding option changed / bigger symbol / other colour); real faults: missing directory (ENOENT), path is a directory (EISDIR), parent is a regular file (ENOTDIR), over-long name (ENAMETOOLONG), paths without a file-name component (dir/., dir/sub/.., dir/x/.., the empty path), /dev/full (ENOSPC at write time); injected by an LD_PRELOAD shim scoped to the case's scratch directory: create fails with EACCES/EROFS/EMFILE, first write fails with ENOSPC/EIO/EDQUOT, k-th write of a chunked stream fails (k in 2,3,5,9; 1024-byte chunks; 7-byte chunks), every write short (7 / 4096 bytes), EINTR on every other write (with and without short writes); each case runs to_file in a child process; the shim logs every interception and every fault actually DELIVERED; oracle: Ok(()) => the file's bytes equal the in-memory rendering computed in the same child; a delivered hard fault => Err(_) converted through ConvertError::from, normal exit, no panic; only benign perturbations => Ok with full content; a configured fault that was never reached is counted separately and is not a pass for the error half; distinct key = case; every case non-trivial",
     );
     rep.level = "fault_enumeration";
-    rep.expected_sets = vec![("fault_classes", 17), ("fault_class_x_format", 32)];
-    rep.required_sets = vec![("fault_classes", 17), ("fault_class_x_format", 32)];
+    rep.expected_sets = vec![("fault_classes", 21), ("fault_class_x_format", 40)];
+    rep.required_sets = vec![("fault_classes", 21), ("fault_class_x_format", 40)];
     rep.min_evaluations = 100;
     rep.assumptions = vec![
         "faults are injected at the libc boundary (open*/creat/write); Rust std and tiny-skia reach the kernel through these symbols (checked by the shim's interception log)".into(),
